@@ -85,7 +85,8 @@ public:
     if (withParams_) for (size_t t = 0; t < T_; ++t) for (size_t j = 0; j < n_; ++j) e_[t][j] = getParameterValue(nm(t, j));
   }
   void computeDEmissionProbabilities(std::string& variable) const override {
-    for (size_t t = 0; t < T_; ++t) for (size_t j = 0; j < n_; ++j) de_[t][j] = (variable == nm(t, j)) ? 1. : 0.;
+    // the variable is the full parameter name (with the namespace)
+    for (size_t t = 0; t < T_; ++t) for (size_t j = 0; j < n_; ++j) de_[t][j] = (variable == getNamespace() + nm(t, j)) ? 1. : 0.;
   }
   void computeD2EmissionProbabilities(std::string&) const override {
     for (size_t t = 0; t < T_; ++t) for (size_t j = 0; j < n_; ++j) d2e_[t][j] = 0.;
@@ -137,6 +138,22 @@ std::string run(State& s, const Toks& t) {
     s.obj.erase(t[1]); s.par.erase(t[1]); s.sh.erase(t[1]);
     if (t[2] == "resc") reg(s, t[1], std::make_shared<RescaledHmmLikelihood>(a, tr, em, ""));
     else if (t[2] == "low") reg(s, t[1], std::make_shared<LowMemoryRescaledHmmLikelihood>(a, tr, em, "", toU(t[4])));
+    else if (t[2] == "log") reg(s, t[1], std::make_shared<LogsumHmmLikelihood>(a, tr, em, ""));
+    else return "bad-op";
+    return hx(s.obj[t[1]]->getLogLikelihood());
+  }
+  if (o == "buildtm") {
+    // buildtm <obj> <resc|low|log> <withParams 0|1> <tm> [chunk]: the transition matrix is a copy of the built-in model <tm>
+    auto q = s.tm.find(t[4]);
+    if (q == s.tm.end()) return "no-object";
+    size_t n = q->second->getNumberOfStates();
+    if (s.n != n || s.E.empty() || s.E.size() % s.n) return "bad-stage";
+    auto a = std::make_shared<TAlphabet>(n);
+    std::shared_ptr<HmmTransitionMatrix> tr(dynamic_cast<AbstractHmmTransitionMatrix*>(q->second->clone()));
+    auto em = std::make_shared<TEmissions>(a, s.E, t[3] == "1");
+    s.obj.erase(t[1]); s.par.erase(t[1]); s.sh.erase(t[1]);
+    if (t[2] == "resc") reg(s, t[1], std::make_shared<RescaledHmmLikelihood>(a, tr, em, ""));
+    else if (t[2] == "low") reg(s, t[1], std::make_shared<LowMemoryRescaledHmmLikelihood>(a, tr, em, "", toU(t[5])));
     else if (t[2] == "log") reg(s, t[1], std::make_shared<LogsumHmmLikelihood>(a, tr, em, ""));
     else return "bad-op";
     return hx(s.obj[t[1]]->getLogLikelihood());
@@ -217,6 +234,8 @@ std::string run(State& s, const Toks& t) {
   if (o == "val") return hx(L.getValue());
   if (o == "brk") { std::vector<size_t> b; for (size_t i = 2; i < t.size(); ++i) b.push_back(toU(t[i])); L.setBreakPoints(b); return hx(L.getLogLikelihood()); }
   if (o == "setp") { Pz.setParameterValue(t[2], hexToDouble(t[3])); return hx(L.getLogLikelihood()); }
+  if (o == "ns") { Pz.setNamespace(t.size() > 2 ? t[2] : std::string()); return hx(L.getLogLikelihood()); }
+  if (o == "names") { std::string r; for (auto& nm : Pz.getParameters().getParameterNames()) r += (r.empty() ? "" : " ") + nm; return r.empty() ? "-" : r; }
   if (o == "setps") {
     ParameterList pl;
     for (size_t i = 2; i + 1 < t.size(); i += 2) pl.addParameter(Parameter(t[i], hexToDouble(t[i + 1])));
